@@ -18,6 +18,9 @@ pub broadcast axiom fn axiom_string_str_borrow<V>(m: Map<String, V>, k: &str)
 pub broadcast axiom fn axiom_string_str_borrow_value<V>(m: Map<String, V>, k: &str, v: V)
     ensures #[trigger] maps_borrowed_key_to_value::<String, V, str>(m, k, v) <==> exists|key: String| key@ == k@ && m.contains_key(key) && m[key] == v;
 
+pub assume_specification<T>[ std::mem::replace::<T> ](dest: &mut T, src: T) -> (r: T)
+    ensures r == *old(dest), *final(dest) == src;
+
 // T1 + R2: copied from parse_locales/mod.rs, `Rc<str>` -> `String`
 //@@ indexer_struct
 
@@ -36,6 +39,8 @@ impl StringIndexer {
 //@@ push_str
 
 //@@ get_strings
+
+//@@ indexer_other_methods
 }
 
 // T1: copied from parsed_value.rs
